@@ -38,9 +38,9 @@ TOL = 1e-9
 
 
 def out_of_time(ctx, extra=0):
-    """stop generating new cases: quick tier after 38 s of wall time (the check must end within 60 s), thorough after 15 min"""
+    """stop generating new cases: quick tier after 30 s of wall time (the check must end within 60 s), thorough after 14 min"""
     import time
-    return (time.time() - ctx.t0) > ((38 if ctx.tier == "quick" else 900) + extra)
+    return (time.time() - ctx.t0) > ((30 if ctx.tier == "quick" else 840) + extra)
 
 
 def phys_dump(phys):
@@ -162,11 +162,9 @@ def run_kinetics(ctx, jobs):
                 ctx.case((fp, "kin", e), nontrivial=(mag != 0), sample={"op": "compute_dspeciesdt", "space": phys["space"]["kind"], "n": n, "ns": ns,
                                                                          "impl": None if got[0] == "error" else float(got[0]), "spec": float(exp)})
                 if not jb["parallel"]:
-                    if got[0] == "error" and got[1] == "AttributeError" and py_has_no_terms(phys, i):
-                        ctx.violation("kinetics-no-terms", "compute_dspeciesdt raises AttributeError ('int' object has no attribute 'convert') for an entry with "
-                                      "no reaction in the network and no neighbouring cell; the rate law gives 0", case, impl="AttributeError", expected="0")
-                    else:
-                        check_entry(ctx, got, exp, mag, U, case, "kinetics:" + phys["space"]["kind"], "compute_dspeciesdt(species %d, cell %d)" % (s, i))
+                    if py_has_no_terms(phys, i):
+                        ctx.count("entries_without_any_term")
+                    check_entry(ctx, got, exp, mag, U, case, "kinetics:" + phys["space"]["kind"], "compute_dspeciesdt(species %d, cell %d)" % (s, i))
                 else:
                     ctx.count("parallel_edges_python_skipped")
                 if m_free is not None and not model_entry_matches(got, m_free["ok"]["entries"][e], mag):
@@ -183,11 +181,7 @@ def run_kinetics(ctx, jobs):
         ctx.case((fp, "whole"), nontrivial=any(m != 0 for _, m in orc))
         if not jb["parallel"]:
             if whole[0] == "error":
-                if whole[1] == "AttributeError" and any_no_terms:
-                    ctx.violation("kinetics-no-terms", "compute_dstatedt raises AttributeError for a system with an entry that has no reaction and no neighbouring cell",
-                                  case, impl="AttributeError", expected="0")
-                else:
-                    ctx.violation("dstatedt:raises", "compute_dstatedt raised %s" % whole[1], case, impl=whole[1])
+                ctx.violation("dstatedt:raises", "compute_dstatedt raised %s" % whole[1], case, impl=whole[1])
             else:
                 vals, dim, sysm = whole
                 for e in range(ns * n):
